@@ -31,7 +31,8 @@ type lcRig struct {
 	healthCode       []int
 	script           []int // status codes for successive /health calls (last one repeats)
 	pendingIDs       []string
-	listFail         bool // the list endpoint answers 500 at once
+	listFail         bool          // the list endpoint answers 500 at once
+	listDrop         chan struct{} // non-nil: list calls are held until it is closed, then their connections are dropped
 	latency          time.Duration
 	backendHit       []time.Duration
 	responses        map[string][]byte
@@ -84,9 +85,19 @@ func newLcRig(script []int, latency time.Duration) *lcRig {
 			r.mu.Lock()
 			r.listTimes = append(r.listTimes, time.Since(r.t0))
 			bad := r.listFail
+			drop := r.listDrop
 			r.mu.Unlock()
 			if bad {
 				w.WriteHeader(500)
+				return
+			}
+			if drop != nil {
+				<-drop
+				if hj, ok := w.(http.Hijacker); ok {
+					if c, _, err := hj.Hijack(); err == nil {
+						c.Close()
+					}
+				}
 				return
 			}
 			// long poll: answer as soon as something is pending, at the latest after 400 ms
@@ -447,6 +458,54 @@ func suiteLifecycle(e *vh.Env) {
 				e.Sample(map[string]interface{}{"scenario": what, "signal_ms": sigAt.Milliseconds(), "exit_after_signal_ms": after.Milliseconds(), "list_calls": len(r.listTimes)})
 			}})
 		}
+	}
+	// --- the poll in flight at the signal ends in a transport error (the proxy drops the connection): that was the last poll
+	for _, sg := range []syscall.Signal{syscall.SIGTERM, syscall.SIGINT} {
+		if !e.Thorough() && sg == syscall.SIGINT {
+			continue
+		}
+		sg := sg
+		scens = append(scens, scen{fmt.Sprintf("signal %v grace=2s, the proxy then drops the connection of the poll in flight", sg), func(idx int) {
+			r := newLcRig([]int{200}, 0)
+			defer r.stop()
+			r.prox.Config.SetKeepAlivesEnabled(false) // otherwise net/http itself re-sends a request that died on a reused connection
+			r.startAgent(e, "--graceful-shutdown-timeout=2s")
+			count := func() int { r.mu.Lock(); defer r.mu.Unlock(); return len(r.listTimes) }
+			for k := 0; k < 500 && count() < 2; k++ {
+				time.Sleep(10 * time.Millisecond)
+			}
+			if count() < 2 {
+				e.Fail("C20:never-polled", "agent did not start polling", idx, nil, nil, nil)
+				return
+			}
+			drop := make(chan struct{})
+			r.mu.Lock()
+			r.listDrop = drop
+			base := len(r.listTimes)
+			r.mu.Unlock()
+			for k := 0; k < 400 && count() < base+1; k++ { // a poll that will be held is in flight
+				time.Sleep(5 * time.Millisecond)
+			}
+			time.Sleep(30 * time.Millisecond)
+			held := count()
+			sigAt := time.Since(r.t0)
+			r.cmd.Process.Signal(sg)
+			time.Sleep(300 * time.Millisecond)
+			close(drop)
+			exited := r.waitExit(5 * time.Second)
+			r.mu.Lock()
+			defer r.mu.Unlock()
+			what := fmt.Sprintf("%v with grace 2s; 300 ms later the proxy dropped the connection of the pending-list poll that was in flight", sg)
+			if !exited {
+				e.Fail("C20:no-exit-after-signal", what+": the agent did not exit", idx, nil, nil, nil)
+				return
+			}
+			if len(r.listTimes) > held {
+				e.Fail("C20:polled-after-signal", what+fmt.Sprintf(": %d more list call(s) started, the first %v after the signal", len(r.listTimes)-held, r.listTimes[held]-sigAt), idx, nil, nil, nil)
+			}
+			e.Eval("signal-poll-dropped/"+what, true)
+			e.Sample(map[string]interface{}{"scenario": what, "list_calls_before_signal": held, "list_calls_total": len(r.listTimes)})
+		}})
 	}
 	for idx, s := range scens {
 		if !e.Want(idx) {
